@@ -81,3 +81,39 @@ Proof.
   change (2 ^ 63) with 9223372036854775808. change (2 ^ 32) with 4294967296 in Hn.
   change (2 ^ 15) with 32768 in *. change (2 ^ 30) with 1073741824 in *. lia.
 Qed.
+
+(** ** mk_variance_s with ties: tp = sum over the distinct values of t (t-1) (2t+5); t -> t (t-1) (2t+5) is superadditive on
+    the non-negative integers, the multiplicities sum to n, so every partial sum stays below n (n-1) (2n+5) *)
+From HDC Require Import Model.Calib Proofs.MKProofs.
+
+Lemma tie_term_nonneg t : 0 <= t -> 0 <= tie_term t.
+Proof. intros H. unfold tie_term. destruct (Z.eq_dec t 0) as [->|Hn]; [reflexivity|]. assert (1 <= t) by lia. nia. Qed.
+
+Lemma tie_term_super a b : 0 <= a -> 0 <= b -> tie_term a + tie_term b <= tie_term (a + b).
+Proof. intros Ha Hb. unfold tie_term. nia. Qed.
+
+Lemma tie_sum_le (l : list Z) : Forall (fun c => 0 <= c) l -> 0 <= zsum l /\ 0 <= zsum (map tie_term l) <= tie_term (zsum l).
+Proof.
+  induction 1 as [|c r Hc Hr IH]; [cbn; unfold tie_term; lia|].
+  cbn [map]. rewrite !zsum_cons. destruct IH as [S0 [T0 T1]].
+  pose proof (tie_term_nonneg c Hc). pose proof (tie_term_super c (zsum r) Hc S0). lia.
+Qed.
+
+Theorem mk_tie_correction_fits_int64 x :
+  Z.of_nat (length x) <= 1600000 ->
+  let n := Z.of_nat (length x) in
+  let tp := zsum (map (fun u => tie_term (zcount u x)) (sort_uniq x)) in
+  0 <= tp <= n * (n - 1) * (2 * n + 5) /\ n * (n - 1) * (2 * n + 5) < 2 ^ 63 /\ 0 <= var_num x <= n * (n - 1) * (2 * n + 5).
+Proof.
+  intros Hn. cbn zeta. set (n := Z.of_nat (length x)) in *.
+  assert (Forall (fun c => 0 <= c) (map (fun u => zcount u x) (sort_uniq x))) as Hc.
+  { apply Forall_forall. intros c Hin. apply in_map_iff in Hin as (u & <- & _). unfold zcount. lia. }
+  destruct (tie_sum_le _ Hc) as [_ [T0 T1]]. rewrite map_map in T0, T1. rewrite counts_sum in T1. fold n in T1.
+  change (tie_term n) with (n * (n - 1) * (2 * n + 5)) in T1.
+  assert (0 <= n) by (unfold n; lia).
+  assert (n * (n - 1) * (2 * n + 5) < 2 ^ 63) by (change (2 ^ 63) with 9223372036854775808; nia).
+  split; [lia|]. split; [assumption|].
+  unfold var_num. fold n. destruct (Z.of_nat (length (sort_uniq x)) =? n).
+  - split; [|lia]. destruct (Z.eq_dec n 0) as [->|Hne]; [lia|]. assert (1 <= n) by lia. nia.
+  - lia.
+Qed.
